@@ -434,6 +434,9 @@ fn worker_stderr(id: &str, w: usize) -> Stdio {
 }
 
 struct WorkerProc {
+    pid: u32,
+    /// set while a range is running: (started, limit)
+    busy: Arc<Mutex<Option<(Instant, Duration)>>>,
     child: std::process::Child,
     cin: std::process::ChildStdin,
     cout: BufReader<std::process::ChildStdout>,
@@ -459,11 +462,37 @@ impl WorkerProc {
             .expect("spawn worker");
         let cin = child.stdin.take().unwrap();
         let cout = BufReader::new(child.stdout.take().unwrap());
-        WorkerProc { child, cin, cout }
+        let pid = child.id();
+        let busy: Arc<Mutex<Option<(Instant, Duration)>>> = Arc::new(Mutex::new(None));
+        // watchdog: a worker stuck in the machinery must not stall the whole check
+        let b2 = busy.clone();
+        std::thread::spawn(move || loop {
+            std::thread::sleep(Duration::from_millis(500));
+            let g = b2.lock().unwrap();
+            match *g {
+                Some((_, lim)) if lim == Duration::from_secs(0) => return,
+                Some((t0, lim)) if t0.elapsed() > lim => {
+                    #[allow(unsafe_code)]
+                    unsafe {
+                        libc::kill(pid as i32, libc::SIGKILL);
+                    }
+                    return;
+                }
+                _ => (),
+            }
+        });
+        WorkerProc { pid, busy, child, cin, cout }
     }
 
-    fn run_range(&mut self, a: u64, b: u64) -> RangeResult {
+    fn run_range(&mut self, a: u64, b: u64, limit: Duration) -> RangeResult {
         let mut current = None;
+        *self.busy.lock().unwrap() = Some((Instant::now(), limit));
+        let r = self.run_range_inner(a, b, &mut current);
+        *self.busy.lock().unwrap() = None;
+        r
+    }
+
+    fn run_range_inner(&mut self, a: u64, b: u64, current: &mut Option<u64>) -> RangeResult {
         if writeln!(self.cin, "{} {}", a, b)
             .and_then(|_| self.cin.flush())
             .is_ok()
@@ -476,7 +505,7 @@ impl WorkerProc {
                     Ok(_) => {
                         let l = line.trim_end();
                         if let Some(r) = l.strip_prefix("#begin ") {
-                            current = r.parse().ok();
+                            *current = r.parse().ok();
                         } else if l.starts_with('{') {
                             if let Ok(v) = serde_json::from_str::<Value>(l) {
                                 let recycle = v["recycle"].as_bool().unwrap_or(false);
@@ -491,10 +520,13 @@ impl WorkerProc {
             Ok(s) => format!("{:?}", s),
             Err(e) => format!("wait failed: {}", e),
         };
-        RangeResult::Died { current, status }
+        RangeResult::Died { current: *current, status }
     }
 
     fn end(mut self) {
+        // tells the watchdog thread to stop
+        *self.busy.lock().unwrap() = Some((Instant::now(), Duration::from_secs(0)));
+        let _ = self.pid;
         drop(self.cin);
         let _ = self.child.kill();
         let _ = self.child.wait();
@@ -546,7 +578,9 @@ pub fn coordinate(check: &dyn Check, tier: Tier) -> Outcome {
                         (a, (a + chunk).min(n))
                     }
                 };
-                match wp.run_range(a, b) {
+                // a range may use what is left of the budget plus a grace period
+                let limit = budget.saturating_sub(t0.elapsed()) + Duration::from_secs(60);
+                match wp.run_range(a, b, limit) {
                     RangeResult::Done(acc, recycle) => {
                         total.lock().unwrap().merge(acc);
                         done_items.fetch_add(b - a, Ordering::SeqCst);
